@@ -151,7 +151,7 @@ def decode(wire, eof, method='GET', interim=0):
         d.extent = end
         d.coded = b''
         d.complete = True
-    elif te is not None and te.split(',')[-1].strip().lower().split(';')[0] == 'chunked':
+    elif te is not None and te.split(',')[-1].split(';')[0].strip().lower() == 'chunked':
         d.framing = 'chunked'
         coded = bytearray()
         p = 0
